@@ -209,7 +209,7 @@ class SDVRPAdapter(RoutingAdapter):
         triples = []
         done_items = [it for it in items if it.ep.complete and it.batch == "solo"]
         rng.shuffle(done_items)
-        for it in done_items[: (80 if tier == "quick" else 400)]:
+        for it in done_items[: (30 if tier == "quick" else 400)]:
             acts = list(it.ep.actions)
             core = list(acts)
             while core and core[-1] == 0:
